@@ -124,6 +124,13 @@ def make_models():
     return Models09()
 
 
+def make_models_for(unit_name):
+    if unit_name.endswith('TorClientEndpoint.connect'):
+        from props import C18
+        return C18.Models18()
+    return Models09()
+
+
 def _state(ctx, path, attacher):
     import txtorcon.torstate as ts
     ex = ctx.ex
@@ -617,6 +624,10 @@ def units():
     us += [('C09/issue_stream_attach@%s' % a, unit_issue(a)) for a in ANSWERS]
     us += [('C09/set_attacher@%s/%s' % (s, a), unit_set_attacher(s, a)) for s in SLOTS for a in ARGS]
     us.append(('C09/set_attacher@empty/install_priority', unit_set_attacher('empty', 'install_priority')))
+    # the local address of a connection attempt must be on its way to the via-circuit matcher before the attempt starts
+    # (TorClientEndpoint.connect; contract shared with C18)
+    from props import C18
+    us.append(('C09/TorClientEndpoint.connect', C18.unit_connect()))
     us += [('C09/_stream_update@%s' % ('known' if k else 'new'), unit_stream_update(k)) for k in (False, True)]
     us += [('C09/PriorityAttacher.attach_stream@%d' % n, unit_priority(n)) for n in (1, 2, 3)]
     return us
